@@ -402,6 +402,25 @@ fn format_argument_multiline(ctx: &Context, argument: &Expression, shape: Shape)
     }
 }
 
+/// Looks through redundant parentheses around a string or a table which is the argument of a call: `f(("x"))`.
+/// They are removed when the argument is formatted, unless a comment sits on them.
+fn argument_without_parentheses(argument: &Expression) -> &Expression {
+    match argument {
+        Expression::Parentheses {
+            contained,
+            expression,
+        } if !trivia_util::token_contains_comments(contained.tokens().0)
+            && !trivia_util::token_contains_comments(contained.tokens().1) =>
+        {
+            match argument_without_parentheses(expression) {
+                inner @ (Expression::String(_) | Expression::TableConstructor(_)) => inner,
+                _ => argument,
+            }
+        }
+        _ => argument,
+    }
+}
+
 /// Formats a FunctionArgs node.
 /// [`call_next_node`] provides information about the node after the FunctionArgs. This only matters if the configuration specifies no call parentheses.
 pub fn format_function_args(
@@ -427,7 +446,8 @@ pub fn format_function_args(
                     .0
                     .has_leading_comments(CommentSearch::All)
             {
-                let argument = arguments.iter().next().unwrap();
+                // Parentheses around the argument itself are removed when it is formatted: look through them
+                let argument = argument_without_parentheses(arguments.iter().next().unwrap());
 
                 // Take any trailing trivia from the end parentheses, in case we need to keep it
                 let trailing_comments = parentheses.tokens().1.trailing_trivia().cloned().collect();
